@@ -186,7 +186,12 @@ func (g *GuaranteeController) ValidateWorkReports() error {
 		}
 		totalGas := types.U64(0)
 		for _, workResult := range workReport.Results {
-			totalGas += types.U64(workResult.AccumulateGas)
+			// the sum is over the naturals (11.30): saturate instead of wrapping around 2^64
+			if sum := totalGas + types.U64(workResult.AccumulateGas); sum < totalGas {
+				totalGas = ^types.U64(0)
+			} else {
+				totalGas = sum
+			}
 			if _, serviceExists := delta[workResult.ServiceID]; !serviceExists {
 				err := ReportsErrorCode.BadServiceID
 				return &err
